@@ -115,6 +115,7 @@ type world struct {
 	E          []int // application order
 	policy     int
 	policySeed uint64
+	nilEmpty   bool
 	// recorded
 	allCalls int
 	tcCalls  int
@@ -189,6 +190,13 @@ func (w *world) windowReply(after, before *int, limit int) []int {
 	}
 }
 
+func (w *world) items(cs []int) []item {
+	if len(cs) == 0 && w.nilEmpty {
+		return nil
+	}
+	return items(cs)
+}
+
 func items(cs []int) []item {
 	out := make([]item, len(cs))
 	for i, c := range cs {
@@ -225,7 +233,7 @@ func newWorld() *world {
 			NamePrefix: "All" + suffix,
 			ResolveAllEdges: func(ctx graphql.FieldContext) (any, func(a, b any) bool, error) {
 				w.allCalls++
-				slice := items(w.E)
+				slice := w.items(w.E)
 				if promise {
 					return apifu.Go(ctx.Context, func() (any, error) { return slice, nil }), intLess, nil
 				}
@@ -241,7 +249,7 @@ func newWorld() *world {
 				a, b := toIntPtr(after), toIntPtr(before)
 				reply := w.windowReply(a, b, limit)
 				w.winCalls = append(w.winCalls, getterCall{a, b, limit, append([]int{}, reply...)})
-				slice := items(reply)
+				slice := w.items(reply)
 				if promise {
 					return apifu.Go(ctx.Context, func() (any, error) { return slice, nil }), intLess, nil
 				}
@@ -287,6 +295,10 @@ type Req struct {
 	// spelling: pass arguments as variables instead of literals; explicit null for absent ones
 	Vars       bool `json:"vars"`
 	NullAbsent bool `json:"null_absent"`
+	// the application represents an empty result (no edges at all, an empty window) as a typed nil
+	// slice (`var ret []T` with no appends) instead of a non-nil empty slice — directly and through
+	// a promise. (An untyped nil is not a slice: completeConnection answers it with an error.)
+	NilEmpty bool `json:"nil_empty"`
 }
 
 func (r Req) field() string {
@@ -387,7 +399,7 @@ func (r Req) build() (query string, vars map[string]any) {
 }
 
 func (w *world) serve(E []int, policy int, policySeed uint64, r Req) (o servedObs) {
-	w.E, w.policy, w.policySeed = E, policy, policySeed
+	w.E, w.policy, w.policySeed, w.nilEmpty = E, policy, policySeed, r.NilEmpty
 	w.allCalls, w.tcCalls, w.winCalls = 0, 0, nil
 	query, vars := r.build()
 	body, _ := json.Marshal(map[string]any{"query": query, "variables": vars})
